@@ -19,6 +19,24 @@ _deps = os.path.join(VERIF, ".deps")
 if os.path.isdir(_deps) and _deps not in sys.path:
     sys.path.append(_deps)
 
+
+def _ensure_hypothesis():
+    """the checks install their one third-party dependency themselves (offline wheelhouse) if it is missing"""
+    try:
+        import hypothesis  # noqa: F401
+        return
+    except ImportError:
+        pass
+    import subprocess
+
+    os.makedirs(_deps, exist_ok=True)
+    subprocess.run([sys.executable, "-m", "pip", "install", "--quiet", "--no-index", "--find-links", "/opt/veriftools/wheels",
+                    "--target", _deps, "hypothesis"], check=False)
+    if _deps not in sys.path:
+        sys.path.append(_deps)
+
+
+_ensure_hypothesis()
 sys.setrecursionlimit(10000)
 
 import ovld  # noqa: E402
